@@ -15,7 +15,7 @@ def sid(prop, k):
 ENV = dict(os.environ, GOFLAGS="-mod=mod", GOPROXY="off", CGO_ENABLED="1")
 ENV.pop("GOWORK", None)
 RELATED = {  # properties whose checks are run against a seed of the given property
-    "C01": ["C01", "C08", "C04", "C05", "C06"], "C02": ["C02", "C05", "C01"], "C03": ["C03", "C05", "C11", "C08"], "C04": ["C04", "C02", "C20", "C01", "C08"], "C05": ["C05", "C06", "C19"],
+    "C01": ["C01", "C08", "C04", "C05", "C06", "C03"], "C02": ["C02", "C05", "C01", "C03"], "C03": ["C03", "C05", "C11", "C08"], "C04": ["C04", "C02", "C20", "C01", "C08"], "C05": ["C05", "C06", "C19"],
     "C06": ["C06", "C05", "C19"], "C07": ["C07", "C05", "C08", "C06"], "C08": ["C08", "C07", "C16", "C17", "C02"], "C09": ["C09", "C08", "C06"], "C10": ["C10", "C12", "C03", "C05"],
     "C11": ["C11", "C03", "C10"], "C12": ["C12", "C10", "C05", "C06", "C16"], "C13": ["C13", "C12", "C03", "C06"], "C14": ["C14"], "C15": ["C15", "C16", "C01"], "C16": ["C16", "C10", "C03", "C15"],
     "C17": ["C17", "C09"], "C18": ["C18", "C08"], "C19": ["C19", "C08", "C05"], "C20": ["C20", "C04", "C01", "C07"],
